@@ -491,7 +491,10 @@ def h_legacy_time_step(kind):
                "fields": {"time_trigger": spec, "time_trigger_kwargs": {"kwargs": {"extra": 1}} if eng.choose(2, "decorator-kwargs") else {},
                           "have_trigger": have_other}}
         try:
-            it, w, ti, res, q_calls, (expr, _) = c04.legacy_step(eng, cfg, msg, loop_state={"state_trig_waiting": False, "startup_time": SV(z3.Const("startup", R))},
+            it, w, ti, res, q_calls, (expr, _) = c04.legacy_step(eng, cfg, msg, loop_state={"state_trig_waiting": False, "startup_time": SV(z3.Const("startup", R)),
+                                                                             # whatever an earlier iteration left behind (a hold's expiry, an instant already used)
+                                                                             "time_next": SV(z3.Const("stale_time_next", R), none=z3.Bool("stale_time_next_is_none")),
+                                                                             "time_next_adj": SV(z3.Const("stale_time_next_adj", R), none=z3.Bool("stale_time_next_is_none"))},
                                                                  clock=clock, timeout_fires=(kind == "timer"))
         finally:
             c04.trig_env = orig
